@@ -850,3 +850,45 @@ def coq_bools(pid, exprs, tag="cert"):
             raise RuntimeError(f"unexpected checker output {o[:200]}")
         res.append(o == "true")
     return res
+
+
+def coq_eval_blocks(pid, header, blocks, tag="cases", per_file=8, timeout=900):
+    """Like common.coq_eval_lines, but every case is a block (definitions, expression): the
+    definitions (`[(name, term)]`, names local to the case; they are prefixed here) are emitted as
+    Coq `Definition`s before the case's `Eval vm_compute`.  Large literals bound by `let ... in`
+    inside one term make Coq's elaboration quadratic; top-level definitions do not.
+    Returns the printed value of each case."""
+    import re as _re
+    d = cm.WORK / pid / tag
+    if d.exists():
+        for f in d.iterdir():
+            f.unlink()
+    d.mkdir(parents=True, exist_ok=True)
+    files = []
+    chunks = [blocks[i:i + per_file] for i in range(0, len(blocks), per_file)]
+    for k, ch in enumerate(chunks):
+        f = d / f"{tag}_{k}.v"
+        with open(f, "w") as fh:
+            fh.write(header)
+            fh.write("\nSet Printing Width 1000000.\nSet Printing Depth 1000000.\n")
+            for j, (defs, expr) in enumerate(ch):
+                e = expr
+                for name, term in defs:
+                    full = f"c{j}_{name}"
+                    fh.write(f"Definition {full} := {term}.\n")
+                    e = _re.sub(r"\b" + _re.escape(name) + r"\b", full, e)
+                fh.write(f"Eval vm_compute in ({e}).\n")
+        files.append(str(f))
+    res = cm.coq_eval_files(pid, files, timeout=timeout)
+    outs = []
+    for k, f in enumerate(files):
+        rc, out = res[f]
+        if rc != 0:
+            raise RuntimeError(f"coqc failed on {f} (rc={rc}):\n{out[-3000:]}")
+        parts = _re.split(r"^\s*= ", out, flags=_re.M)[1:]
+        if len(parts) != len(chunks[k]):
+            raise RuntimeError(f"{f}: expected {len(chunks[k])} results, got {len(parts)}\n{out[-2000:]}")
+        for p in parts:
+            idx = p.rfind("\n     : ")
+            outs.append(p[:idx].strip() if idx >= 0 else p.strip())
+    return outs
